@@ -7,9 +7,12 @@ if ! git diff --quiet; then echo "/repo not clean"; exit 2; fi
 git apply "$P" || { echo "patch does not apply"; exit 2; }
 cd /verif
 OUT=$(mktemp /tmp/seedrun.XXXXXX)
+# the evidence file describes runs on the unchanged tree only: keep it aside while the changed tree is checked
+EVB=$(mktemp /tmp/seedev.XXXXXX); cp evidence/$ID.json $EVB 2>/dev/null
 ./check $ID --tier $TIER > $OUT 2>&1
 RC=$?
 git -C /repo checkout -- .; rm -rf /verif/replays/$ID
+[ -s $EVB ] && cp $EVB evidence/$ID.json; rm -f $EVB
 grep -a -E "^VIOLATION|^KNOWN|^MACHINERY|^C[0-9]+ " $OUT | cut -c1-400 | head -8
 rm -f $OUT
 echo "exit=$RC"
